@@ -92,8 +92,29 @@ impl IntoData for i64 {
 
 impl IntoData for i128 {
     fn as_data(&self) -> PlutusData {
-        let int = Int::try_from(*self).unwrap();
-        PlutusData::BigInt(BigInt::Int(int))
+        // integers that fit the CBOR int range are plain ints, anything wider is a bignum
+        // (tag 2 / tag 3 over the big-endian magnitude)
+        match Int::try_from(*self) {
+            Ok(int) => PlutusData::BigInt(BigInt::Int(int)),
+            Err(_) => {
+                let magnitude = if *self >= 0 {
+                    self.unsigned_abs()
+                } else {
+                    // tag 3 carries -1 - n
+                    self.unsigned_abs() - 1
+                };
+
+                let bytes = magnitude.to_be_bytes();
+                let first = bytes.iter().position(|b| *b != 0).unwrap_or(bytes.len() - 1);
+                let bytes = BoundedBytes::from(bytes[first..].to_vec());
+
+                if *self >= 0 {
+                    PlutusData::BigInt(BigInt::BigUInt(bytes))
+                } else {
+                    PlutusData::BigInt(BigInt::BigNInt(bytes))
+                }
+            }
+        }
     }
 }
 
